@@ -919,7 +919,11 @@ func (prog *Prog) sourceOf(goMode bool, choiceVectors [][]int, part string) stri
 	needFmt := false
 	scanE := func(e *E) {
 		if e.K == "lib" {
-			libPkgs[strings.SplitN(e.Fn, ".", 2)[0]] = true
+			if strings.HasPrefix(e.Fn, "fmt.") {
+				needFmt = true
+			} else {
+				libPkgs[strings.SplitN(e.Fn, ".", 2)[0]] = true
+			}
 		}
 	}
 	scanS := func(s *S) {
@@ -1218,7 +1222,7 @@ func (f *flat) stmt(s *S) int {
 	case "yield":
 		return f.add(map[string]any{"k": "yield", "e": f.expr(s.E)})
 	case "print":
-		return f.add(map[string]any{"k": "print", "args": f.exprs(s.Exprs), "ln": s.Ln})
+		return f.add(map[string]any{"k": "print", "args": f.exprs(s.Exprs), "ln": s.Ln, "fmtp": s.Fmt && !s.Ln})
 	case "block":
 		return f.add(map[string]any{"k": "block", "body": f.stmts(s.Body)})
 	case "if":
